@@ -1059,7 +1059,8 @@ def gen_hci(rng, tier, seed):
             # flow-control-only events (opcode 0x0000), stray replies to commands nobody sent, completed-packets reports for nobody
             frames.append(rng.choice(['040e03010000', '040e03000000', '040e03ff0000', '040f0400010000', '040f0400000000', '040f04ff050000',
                                       '040e0401030c00', '040f0400011d04', '0413050100000100', '04130501ff0fffff', '041309020100010002000100', '0410' + '01aa',
-                                      '040e0a01091000a0a0a0a0a0a0', '040e03010910', '041a00', '0401' + '0100']))
+                                      '040e0a01091000a0a0a0a0a0a0', '040e03010910', '041a00', '0401' + '0100',
+                                      '0405040c010013', '0405040c020013', '04050412010016', '0405041f01ff08']))  # Disconnection Complete reporting a FAILURE
         elif r < 0.6:
             # ACL packets for the live handle with fragment-flag / length games
             handle = rng.choice([1, 1, 1, 2, 0x0EFF])
@@ -1104,7 +1105,10 @@ def _legit_disruption(pkt: bytes, handle: int) -> bool:
         return False
     if 'Hardware_Error' in name:
         return True
-    return getattr(ev, 'connection_handle', None) == handle
+    if getattr(ev, 'connection_handle', None) != handle:
+        return False
+    # only a SUCCESSFUL completion ends or replaces the connection; a Disconnection Complete that reports a failure does not
+    return getattr(ev, 'status', 0) == 0
 
 
 def run_hci(case):
